@@ -577,15 +577,17 @@ class GenericDriver(Driver, BaseGenericDriver):
 
         original_transport_timeout = self.timeout_transport
 
-        # if the read_timeout value is -1.0 or just less than 0, that indicates we should use
-        # the "normal" transport timeout and not modify anything
-        self.timeout_transport = read_timeout if read_timeout >= 0 else self.timeout_transport
-
         _read_delay = 0.1 if read_delay <= 0 else read_delay
 
         matched_callback: Optional["ReadCallback"] = None
 
         try:
+            # if the read_timeout value is -1.0 or just less than 0, that indicates we should use
+            # the "normal" transport timeout and not modify anything -- set inside the try: the
+            # setter pushes the value into the transport session (paramiko/ssh2) *after* it has
+            # stored it, and that push raises when there is no session
+            self.timeout_transport = read_timeout if read_timeout >= 0 else self.timeout_transport
+
             while matched_callback is None:
                 try:
                     read_output += self.channel.read()
